@@ -26,10 +26,12 @@ struct Run {
 
 class Dumper {
 public:
-  static std::string tok(Phreeqc* e, class rxn_token& t) {
+  static std::string tok(Phreeqc* e, class rxn_token& t, bool raw) {
     std::ostringstream o;
     class species* s = t.s;
-    o << " " << hex(s ? s->name : (t.name ? t.name : "")) << " " << hexd(t.coef) << " " << hexd(s ? s->la : 0.0)
+    // log activity as LA() reports it: lm + lg for aqueous species (the `la` field is only maintained for masters)
+    double la = s ? ((s->type == AQ && !raw) ? s->lm + s->lg : s->la) : 0.0;
+    o << " " << hex(s ? s->name : (t.name ? t.name : "")) << " " << hexd(t.coef) << " " << hexd(la)
       << " " << (s ? s->type : -1) << " " << hexd(s ? s->z : 0.0);
     return o.str();
   }
@@ -91,10 +93,10 @@ public:
           << hexd(s->dz[2]) << " " << (s->primary ? 1 : 0);
         size_t n = Dumper::ntok(s->rxn_x);
         o << " " << n;
-        for (size_t j = 1; j <= n; j++) o << Dumper::tok(e, s->rxn_x.token[j]);
+        for (size_t j = 1; j <= n; j++) o << Dumper::tok(e, s->rxn_x.token[j], true);
         n = Dumper::ntok(s->rxn);
         o << " " << n;
-        for (size_t j = 1; j <= n; j++) o << Dumper::tok(e, s->rxn.token[j]);
+        for (size_t j = 1; j <= n; j++) o << Dumper::tok(e, s->rxn.token[j], false);
         size_t ne = 0;
         for (size_t j = 0; j < s->next_elt.size(); j++) { if (s->next_elt[j].elt == NULL) break; ne++; }
         o << " " << ne;
@@ -177,6 +179,7 @@ int main() {
       run.ip = ip; run.blocks.clear();
       ip->SetBasicCallback(cb, &run);
       ip->SetErrorStringOn(true);
+      if (getenv("C20_DEBUG")) ip->SetOutputStringOn(true);
       std::string input = hx::unhex(w[3]);
       int nerr = ip->RunString(input.c_str());
       std::cout << "CASE " << w[1] << " errors=" << nerr << " blocks=" << run.blocks.size() << "\n";
@@ -198,6 +201,7 @@ int main() {
         std::cout << "E\n";
       }
       if (nerr) std::cout << "ERR " << hex(ip->GetErrorString()) << "\n";
+      if (nerr && getenv("C20_DEBUG")) { std::string o = ip->GetOutputString(); std::cerr << o.substr(o.size() > 3000 ? o.size() - 3000 : 0) << "\n"; }
       std::cout << "END " << w[1] << " rows=" << (nr > 0 ? nr - 1 : 0) << "\n";
       std::cout.flush();
       if (nerr) { delete ip; ip = 0; curdb = ""; }   // a failed run may leave the instance in an odd state: start fresh
